@@ -151,7 +151,20 @@ def jobs(tier):
 INDIRECT = ["virtual-raises-in-sub", "dict-of-list-of-configs", "list-of-list-of-configs", "dict-of-dict-of-list-of-configs", "sub:dict-of-list-of-configs", "sub:list-of-list-of-configs",
             "untyped-list-holds-configs", "any-holds-config-list", "dynamic-holds-config-list", "sub:untyped-list-holds-configs", "virtual-returns-item", "virtual-returns-sub", "dynamic-holds-config", "late-attr", "late-item", "late-dotted-item", "late-auto-sub",
             "late-in-item-schema", "flag-off-sub", "flag-off-root", "flag-off-item",
-            "dynamic-then-declared", "dynamic-then-declared-reassigned", "dynamic-then-declared-secure"]
+            "dynamic-then-declared", "dynamic-then-declared-reassigned", "dynamic-then-declared-secure", "empty-sensitive-typed-containers", "non-ascii-secrets"]
+
+
+def _sec_s(variant):
+    return "T\u00d6PSECRET-gar\u00e7on-\u2713\u540d" if variant == "non-ascii-secrets" else "TOPSECRET-xyz"
+
+
+def _nonplain(node):
+    """objects in a rendered tree that are not plain data (a typed-container proxy carries its whole configuration along)"""
+    if isinstance(node, dict):
+        return ([] if type(node) is dict else [type(node).__name__]) + [x for v in node.values() for x in _nonplain(v)]
+    if isinstance(node, (list, tuple)):
+        return ([] if type(node) in (list, tuple) else [type(node).__name__]) + [x for v in node for x in _nonplain(v)]
+    return [] if node is None or type(node) in (str, int, float, bool, bytes) else [type(node).__name__]
 
 
 def _indirect_world(variant, keypath, prior_render):
@@ -161,6 +174,12 @@ def _indirect_world(variant, keypath, prior_render):
         sch.sec_s = cc.StringField(sensitive=True)
         sch.sec_x = cc.SecureField(method="xor")
         sch.pub_s = cc.StringField()
+        if variant == "empty-sensitive-typed-containers":
+            # sensitive typed containers that are empty (declared default / assigned): nothing to hide in them, and nothing of
+            # the configuration travels with them into the rendered tree
+            sch.sec_tl = cc.ListField(cc.StringField(), sensitive=True, default=[])
+            sch.sec_td = cc.DictField(cc.StringField(), cc.StringField(), sensitive=True, default=dict)
+            sch.sec_tl2 = cc.ListField(cc.IntField(), sensitive=True)
     s = cc.Schema(dynamic=variant.startswith("dynamic-holds-config") or variant.startswith("dynamic-then-declared"))
     node(s)
     node(s.sub)
@@ -196,7 +215,7 @@ def _indirect_world(variant, keypath, prior_render):
         s.sub.broken = cc.VirtualField(lambda cfg: cfg.sec_s + 1)
     if variant == "virtual-returns-sub":
         s.alias = cc.VirtualField(lambda cfg: cfg.sub)
-    vals = {"sec_s": "TOPSECRET-xyz", "sec_x": "XSECRET-q9", "pub_s": "PUBLIC-abc"}
+    vals = {"sec_s": _sec_s(variant), "sec_x": "XSECRET-q9", "pub_s": "PUBLIC-abc"}
     tree = dict(vals, sub=dict(vals), items=[dict(vals)])
     if variant.startswith("flag-off"):
         # a section whose feature flag is off is still rendered: its sensitive values, the ones of the sections below it
@@ -231,6 +250,10 @@ def _indirect_world(variant, keypath, prior_render):
     if late:
         cfg = cc.Config(s, key_filename=keypath)       # a configuration built after the schema grew
         cfg.load_tree(dict(tree, **late))
+    if variant == "empty-sensitive-typed-containers":
+        cfg.sec_tl2 = []
+        cfg.sub.sec_tl2 = [1]
+        cfg.sub.sec_tl2.pop()
     if variant.startswith("dynamic-then-declared"):
         # a dynamic configuration holds an ad-hoc value; the schema then declares that key as a sensitive field: from
         # then on the declared field governs the key (it validates every write), also when the old object is rendered
@@ -262,7 +285,7 @@ def _indirect(job, ctx):
     open(keypath, "wb").write(bytes(range(32)))
     variant = job["indirect"]
     only = job.get("only")
-    secrets = ["TOPSECRET-xyz", "XSECRET-q9", "LATESECRET-1"]
+    secrets = [_sec_s(variant), "XSECRET-q9", "LATESECRET-1"]
     for prior in (False, True):
         for mask in MASKS[1:]:
             for virtual in (False, True):
@@ -297,13 +320,16 @@ def _indirect(job, ctx):
                 live = _live_configs(masked)
                 if live:
                     bad("live-config-in-tree", "the masked tree holds %d live configuration object(s); their sensitive values are readable as they are" % live)
+                odd = [x for x in _nonplain(masked) if x not in ("Config",) and not x.startswith("CT") and x not in _nonplain(plain)]
+                if odd:
+                    bad("non-plain-object-in-tree", "the masked tree holds %s objects where the plain rendering holds plain data" % sorted(set(odd)))
                 text = repr(masked)
                 leaked = [x for x in secrets if x in text]
                 if leaked:
                     bad("secret-in-tree|mask=" + mtag, "the masked tree contains %s" % leaked)
                 if text.count("PUBLIC-abc") != repr(plain).count("PUBLIC-abc"):
                     bad("non-sensitive-altered", "the non-sensitive values of the masked tree differ from the plain one")
-                want = mask * len("TOPSECRET-xyz") if len(mask) == 1 else mask
+                want = mask * len(_sec_s(variant)) if len(mask) == 1 else mask        # one mask character per character of the value
                 if masked.get("sec_s") != want:
                     bad("not-masked|root", "the root's sensitive string is rendered as %r" % (masked.get("sec_s"),))
                 ctx.case(("indirect", variant, repr(ident)), "indirect:%s:%s" % (variant, mtag), True)
